@@ -2,6 +2,7 @@ import Mathlib.Algebra.Order.Ring.Rat
 import Mathlib.Algebra.Order.Group.Nat
 import TapkeeVerif.Proofs.DijkstraMain
 import TapkeeVerif.Proofs.IsomapPreAlgebra
+import TapkeeVerif.Proofs.DijkstraFib
 /-!
 # Property C04 — Isomap geodesics are exact shortest paths; Isomap is classical MDS of them
 
@@ -206,6 +207,28 @@ example : Metric ({ flagWitness with w := fun i j => if i = j then 0 else 1 } : 
 
 /-- the exactness theorems are not vacuous on it either: the model returns the geodesic matrix -/
 example : allPairs flagWitness .lazy (fun _ _ => 0) =
+    .ok [#v[some 0, none, some 1], #v[some 1, some 0, some 2], #v[none, none, some 0]] := by decide
+
+/-! ## The Fibonacci build on top of property C16 -/
+
+/-- **fib_build_refines_indexed.**  `Model/DijkstraFib.lean` runs the relax loop of the Fibonacci build with the
+    *concrete* heap model of property C16 (`Model/FibHeap.lean`: rings, `consolidate`, cascading cuts).  By C16's
+    one-step refinement theorem (`FibHeap.step_ok`: every heap operation is an operation of the finite-map
+    specification, `extract_min` returns an arg-min) every run of it is a run of the abstract `indexed` discipline
+    for some tie-breaking stream … -/
+theorem fib_build_refines_indexed {P : Problem Int} {k : Nat} (hw : ∀ a b, 0 ≤ P.w a b) {src : Nat}
+    {r : Vector (Option Int) P.N} (h : fibRow P k src src = .ok r) :
+    ∃ ch, row P .indexed k ch src src = .ok r := fibRow_refines hw h
+
+/-- … hence the Fibonacci build with the real heap's own tie-breaking returns the geodesic distances. -/
+theorem fib_build_exact {P : Problem Int} {k : Nat} (hw : ∀ a b, 0 ≤ P.w a b) {src : Nat}
+    {r : Vector (Option Int) P.N} (h : fibRow P k src src = .ok r) (v : Nat) (hv : v < P.N) :
+    IsGeodesic P k src v r[v] := by
+  obtain ⟨ch, hch⟩ := fibRow_refines hw h
+  exact row_geodesic hw (Or.inr rfl) hch v hv
+
+/-- not vacuous: on the 3-sample example the concrete-heap model returns the geodesic rows -/
+example : fibAllPairs { flagWitness with w := fun _ _ => (1 : Int) } =
     .ok [#v[some 0, none, some 1], #v[some 1, some 0, some 2], #v[none, none, some 0]] := by decide
 
 /-! ## Threads -/
